@@ -24,13 +24,28 @@ Local Open Scope N_scope.
 (* ============================================================================================ *)
 (* (a) C11 + C06: validator registrations.                                                      *)
 
+(* Timestamps.  C11 stamps a registration with a whole number of seconds ([R.r_now]: the code rounds
+   time.Now() to the second before it builds the registration).  The signer is handed the Go value
+   ([go_reg], inside [reg_request]): fee recipient, gas limit, public key and a time.Time whose
+   instant is that many seconds EXACTLY (gr_time_ns = stamp * 10^9, no sub-second part), and signs
+   the wire message, whose timestamp is uint64(Timestamp.Unix()).  The equations "the signature is
+   over the registration with this timestamp" below therefore carry the explicit hypothesis that the
+   timestamp fits a uint64, [... < 18446744073709551616] (= 2^64 = [uint64_bound]).  It is true of
+   every real clock (2^64 s is about 5.8e11 years; a Go time.Time cannot represent such an instant)
+   and is a hypothesis on the clock alone: every timestamp met below is the [R.r_now] of a round of
+   the history (first theorem; Proofs/Compose_C06more.v [request_stamps_fit], [sent_stamps_fit],
+   [cached_stamps_fit] for [clock_fits ops]).  Everything else -- who signs, that the account can
+   sign, which message the tag names -- holds without it; without it the message signed is the same
+   with the timestamp taken modulo 2^64 ([reg_request_signed_wrapped]). *)
+
 (* Every signing request the registration model ever makes (any history of rounds, forwardings,
    preparations) was made in a round [r], for a relay entry [rc] of the resolved settings of a
    validator [v] of that round, by that validator's account; handed to the signer as
    ReqRegistration, whenever it is answered the answer is ONE signature, by that account's key, over
    the builder specification's signing root -- DOMAIN_APPLICATION_BUILDER, genesis fork version,
    zero genesis validators root -- of the registration (rc's fee recipient, rc's gas limit, the
-   round's time, v's public key). *)
+   round's time, v's public key); the request carries the Go value whose instant is the round's
+   time in seconds exactly ([reg_request_instant]). *)
 Theorem C06_registration_requests_get_builder_signatures :
   forall (ops : list R.op) (q : R.sigreq),
     In q (RP.all_reqs (snd (R.run R.init ops))) ->
@@ -41,10 +56,11 @@ Theorem C06_registration_requests_get_builder_signatures :
       /\ forall (H : N -> N -> N) (sig : Type) (zero_sig : sig) (sign : N -> N -> sig) (c : chain)
                 (acct : N -> account) (sigs : list sig),
            run H sig zero_sig (spec_provider H c) (honest H sig sign) (spec_service c) (reg_request acct q) = Ok sigs ->
-           sigs = [sign (a_key (acct (R.v_acct v)))
-                        (compute_signing_root H
-                           (htr_registration H (Registration (R.rc_fee rc) (R.rc_gas rc) (R.r_now r) (R.v_pub v)))
-                           (compute_domain H DOMAIN_APPLICATION_BUILDER (ch_genesis_version c) 0))]
+           (R.r_now r < 18446744073709551616 ->
+            sigs = [sign (a_key (acct (R.v_acct v)))
+                         (compute_signing_root H
+                            (htr_registration H (Registration (R.rc_fee rc) (R.rc_gas rc) (R.r_now r) (R.v_pub v)))
+                            (compute_domain H DOMAIN_APPLICATION_BUILDER (ch_genesis_version c) 0))])
            /\ a_fail (acct (R.v_acct v)) = false.
 Proof. exact registration_requests_signed. Qed.
 Print Assumptions C06_registration_requests_get_builder_signatures.
@@ -71,7 +87,7 @@ Theorem C06_relay_registrations_are_signed_over_the_submitted_message :
           /\ forall (H : N -> N -> N) (sig : Type) (zero_sig : sig) (sign : N -> N -> sig) (c : chain)
                     (acct : N -> account) (sigs : list sig),
                run H sig zero_sig (spec_provider H c) (honest H sig sign) (spec_service c) (reg_request acct q) = Ok sigs ->
-               sigs = [reg_sig_value H sig sign c acct (R.sr_sig sr)]
+               (R.sr_stamp sr < 18446744073709551616 -> sigs = [reg_sig_value H sig sign c acct (R.sr_sig sr)])
                /\ reg_sig_value H sig sign c acct (R.sr_sig sr)
                   = sign (a_key (acct (R.v_acct v)))
                          (compute_signing_root H
@@ -96,7 +112,7 @@ Theorem C06_sent_registrations_carry_the_signature_of_their_own_message :
         /\ forall (H : N -> N -> N) (sig : Type) (zero_sig : sig) (sign : N -> N -> sig) (c : chain)
                   (acct : N -> account) (sigs : list sig),
              run H sig zero_sig (spec_provider H c) (honest H sig sign) (spec_service c) (reg_request acct q) = Ok sigs ->
-             sigs = [reg_sig_value H sig sign c acct (R.sr_sig sr)]
+             (R.sr_stamp sr < 18446744073709551616 -> sigs = [reg_sig_value H sig sign c acct (R.sr_sig sr)])
              /\ reg_sig_value H sig sign c acct (R.sr_sig sr)
                 = sign (a_key (acct (R.q_acct q)))
                        (compute_signing_root H (htr_registration H (sreg_msg sr))
@@ -117,7 +133,7 @@ Theorem C06_cached_registrations_carry_the_signature_of_their_own_message :
       /\ forall (H : N -> N -> N) (sig : Type) (zero_sig : sig) (sign : N -> N -> sig) (c : chain)
                 (acct : N -> account) (sigs : list sig),
            run H sig zero_sig (spec_provider H c) (honest H sig sign) (spec_service c) (reg_request acct q) = Ok sigs ->
-           sigs = [reg_sig_value H sig sign c acct (R.sr_sig sr)]
+           (R.sr_stamp sr < 18446744073709551616 -> sigs = [reg_sig_value H sig sign c acct (R.sr_sig sr)])
            /\ reg_sig_value H sig sign c acct (R.sr_sig sr)
               = sign (a_key (acct (R.q_acct q)))
                      (compute_signing_root H (htr_registration H (sreg_msg sr))
